@@ -6,6 +6,7 @@ import (
 	"verif/props/c03"
 	"verif/props/c04"
 	"verif/props/c06"
+	"verif/props/c07"
 	"verif/props/c08"
 	"verif/props/c09"
 	"verif/props/c10"
@@ -24,6 +25,7 @@ func init() {
 	props["C03"] = prop{c03.Run, c03.Replay}
 	props["C04"] = prop{c04.Run, c04.Replay}
 	props["C06"] = prop{c06.Run, c06.Replay}
+	props["C07"] = prop{c07.Run, c07.Replay}
 	props["C08"] = prop{c08.Run, c08.Replay}
 	props["C09"] = prop{c09.Run, c09.Replay}
 	props["C10"] = prop{c10.Run, c10.Replay}
